@@ -4033,6 +4033,8 @@ impl<'store> QueryIter<'store> {
             match self.init_state() {
                 Err(e) => {
                     eprintln!("STAM Query error: {}", e);
+                    #[cfg(stam_verif)]
+                    verif_hooks::verif_record_query_error(&e);
                     return StateStackStatus::Invalid;
                 }
                 Ok(StateStackStatus::NewState) => {
@@ -4743,6 +4745,15 @@ impl<'a> Assignment<'a> {
 #[cfg(stam_verif)]
 pub mod verif_hooks {
     use super::*;
+    thread_local! { static LAST_QUERY_ERROR: std::cell::RefCell<Option<String>> = std::cell::RefCell::new(None); }
+    /// the error (if any) that ended the evaluation of a query on this thread since the last call; the iterator
+    /// interface can only print it to standard error
+    pub fn verif_take_query_error() -> Option<String> {
+        LAST_QUERY_ERROR.with(|e| e.borrow_mut().take())
+    }
+    pub(crate) fn verif_record_query_error(e: &StamError) {
+        LAST_QUERY_ERROR.with(|x| *x.borrow_mut() = Some(format!("{}", e)));
+    }
     /// `get_arg`: (argument, remainder, argument type) or None on a syntax error
     pub fn verif_get_arg(querystring: &str) -> Option<(String, String, String)> {
         get_arg(querystring)
